@@ -65,9 +65,11 @@ Definition ais_set_wrapper (a : ais_sentence) (w : option gatehouse) : ais_sente
 Definition ais_set_common (a : ais_sentence) (c : nmea_common) : ais_sentence :=
   mkAis c (a_frag_cnt a) (a_frag_num a) (a_seq_id a) (a_channel a) (a_payload a) (a_bits a) (a_ais_id a)
         (a_wrapper a).
+(* messages[0] with raw/payload/bit_array/is_valid overwritten and ais_id recomputed from the assembled bits
+   (get_int(bit_array, 0, 6); since the fix of the C04 defect) *)
 Definition ais_set_assembled (a : ais_sentence) (raw payload : bytes) (b : bits) (valid : bool) : ais_sentence :=
   mkAis (set_raw_valid (a_common a) raw valid) (a_frag_cnt a) (a_frag_num a) (a_seq_id a) (a_channel a) payload b
-        (a_ais_id a) (a_wrapper a).
+        (get_int b 0 6 false) (a_wrapper a).
 Definition sentence_set_tag_block (s : sentence) (tb : option bytes) : sentence :=
   match s with
   | SAis a => SAis (ais_set_common a (set_tag_block (a_common a) tb))
